@@ -20,7 +20,7 @@ cand=None
 lines=[l for l in notes.splitlines() if d in l]+[l for l in notes.splitlines() if re.search(r'\b[Cc]opy\b', l)]+[l for l in src.splitlines()[:12] if 'opy' in l]
 for line in lines:
     if True:
-        m=re.search(r'/tmp/wt/[A-Z]+\d+((?:/[A-Za-z0-9_]+)*)/?', line)
+        m=re.search(r'/tmp/wt/[A-Za-z0-9]+((?:/[A-Za-z0-9_]+)*)/?', line)
         if m:
             sub=m.group(1).strip('/')
             if sub.endswith('.go') or os.path.basename(sub).startswith('zz') or os.path.basename(sub)==d[:-3]: sub=os.path.dirname(sub)
